@@ -1225,3 +1225,71 @@ def definitely_assigned(ctx, modnames: Iterable[str], why: str, exempt: Dict[str
             else:
                 ctx.ok(construct, f.loc(), nontrivial=False)
     return n_funcs
+
+
+# --------------------------------------------------------------------------- handlers use only what every caught exception has
+_EXC_ATTRS = {
+    "JSONDecodeError": {"msg", "doc", "pos", "lineno", "colno"},
+    "OSError": {"errno", "strerror", "filename", "filename2"},
+    "EnvironmentError": {"errno", "strerror", "filename", "filename2"},
+    "IOError": {"errno", "strerror", "filename", "filename2"},
+    "FileNotFoundError": {"errno", "strerror", "filename", "filename2"},
+    "PermissionError": {"errno", "strerror", "filename", "filename2"},
+    "UnicodeDecodeError": {"encoding", "object", "start", "end", "reason"},
+    "UnicodeEncodeError": {"encoding", "object", "start", "end", "reason"},
+    "SyntaxError": {"msg", "filename", "lineno", "offset", "text"},
+    "KeyError": set(), "ValueError": set(), "TypeError": set(), "RecursionError": set(), "RuntimeError": set(), "AttributeError": {"name", "obj"},
+    "IndexError": set(), "LookupError": set(), "ArithmeticError": set(), "OverflowError": set(), "Exception": set(), "BaseException": set(),
+    "StopIteration": {"value"}, "SystemExit": {"code"}, "ImportError": {"name", "path", "msg"}, "ModuleNotFoundError": {"name", "path", "msg"},
+}
+_EXC_BASE = {"args", "with_traceback", "add_note", "__cause__", "__context__", "__traceback__", "__class__", "__notes__", "__str__", "__repr__", "__dict__", "__doc__"}
+
+
+def handler_attribute_access(ctx, modnames: Iterable[str], why: str) -> int:
+    """In `except (A, B) as e:` every attribute read from `e` exists on *each* of the caught classes (standard classes by
+    table, classes of the repository by the attributes their __init__ sets). A handler that was widened to more classes, or
+    a message that starts to quote `e.colno`, raises AttributeError inside the handler - i.e. out of the function."""
+    repo = ctx.repo
+    n = 0
+
+    def attrs_of(name: str) -> Optional[Set[str]]:
+        base = name.split(".")[-1]
+        if base in _EXC_ATTRS:
+            return _EXC_ATTRS[base]
+        for m in repo.modules.values():
+            for c in m.tree.body:
+                if isinstance(c, ast.ClassDef) and c.name == base:
+                    out = {t.attr for x in ast.walk(c) if isinstance(x, ast.Assign) for t in x.targets if isinstance(t, ast.Attribute)
+                           and isinstance(t.value, ast.Name) and t.value.id == "self"}
+                    out |= {x.name for x in c.body if isinstance(x, ast.FunctionDef)}
+                    for b in c.bases:
+                        sup = attrs_of(ast.unparse(b))
+                        if sup is None:
+                            return None
+                        out |= sup
+                    return out
+        return None
+
+    for m in modnames:
+        for f in repo.funcs_in(m):
+            for h in [x for x in own_nodes(repo, f) if isinstance(x, ast.ExceptHandler) and x.name and x.type is not None]:
+                types = [ast.unparse(t) for t in (h.type.elts if isinstance(h.type, ast.Tuple) else [h.type])]
+                reads = sorted({x.attr for st in h.body for x in ast.walk(st) if isinstance(x, ast.Attribute) and isinstance(x.value, ast.Name)
+                                and x.value.id == h.name and isinstance(x.ctx, ast.Load)} - _EXC_BASE)
+                if not reads:
+                    continue
+                n += 1
+                construct = f"{f.short}/handler for {', '.join(types)} reads only what each of them has"
+                missing = []
+                for t in types:
+                    have = attrs_of(t)
+                    if have is None:
+                        continue
+                    lack = [a for a in reads if a not in have]
+                    if lack:
+                        missing.append(f"{t} has no `{lack[0]}`")
+                if missing:
+                    ctx.bad(construct, f"the handler reads {', '.join('e.' + a for a in reads)} but {'; '.join(missing)}: AttributeError inside the handler - {why}", f.loc(h))
+                else:
+                    ctx.ok(construct, f.loc(h))
+    return n
